@@ -76,7 +76,7 @@ def run_shard(ctx, K=None):
     mon_id.install(semantic=True, K=K, max_card=3)
     mon_id.CONFIG["max_nodes_semantic"] = 6
     rng = ctx.rng
-    n_cases = ctx.share({"quick": 1600, "thorough": 40000}[ctx.tier])
+    n_cases = ctx.share({"quick": 3000, "thorough": 40000}[ctx.tier])
     hostile_seen = {}
     qcls = {}
     for i in range(n_cases):
@@ -92,7 +92,7 @@ def run_shard(ctx, K=None):
             POOL.append((gd, q))
     # feedback: cases whose trace reached line 7 (rare under uniform sampling) are kept and mutated
     pool = [c for c in POOL]
-    budget = ctx.share({"quick": 1600, "thorough": 60000}[ctx.tier])
+    budget = ctx.share({"quick": 4000, "thorough": 60000}[ctx.tier])
     fb = {"line7_cases": 0, "line7_then_line6": 0}
     for i in range(budget):
         if pool and rng.random() < 0.85:
